@@ -85,6 +85,19 @@ func (e *Engine) calleeKey(cc *ssa.CallCommon) string {
 // callEffect: static summary of what a call may modify (used to havoc loops).
 func (e *Engine) callEffect(cc *ssa.CallCommon) effect {
 	key := e.calleeKey(cc)
+	if key == "" && !cc.IsInvoke() {
+		// call through a captured func variable with a paramfunc contract
+		if u, ok := cc.Value.(*ssa.UnOp); ok {
+			if fv, ok2 := u.X.(*ssa.FreeVar); ok2 && fv.Parent() != nil {
+				if pk := "param:" + funcKey(fv.Parent()) + "." + fv.Name(); e.cs.Funcs[pk] != nil {
+					key = pk
+					if t := e.cs.Funcs[pk].SameAs; t != "" && e.cs.Funcs[t] != nil {
+						key = t
+					}
+				}
+			}
+		}
+	}
 	if strings.HasPrefix(key, "builtin:") {
 		switch key {
 		case "builtin:append":
@@ -288,6 +301,14 @@ func (vf *VerifyFunc) doCall(st *State, fr *Frame, in ssa.Instruction, cc *ssa.C
 			key = pk
 		}
 	}
+	// call through a captured func variable (closure free variable): contract given as paramfunc <closure>.<name>
+	if u, ok := cc.Value.(*ssa.UnOp); ok && !cc.IsInvoke() && static == nil && (fnv == nil || fnv.Fn == nil) {
+		if fv, ok2 := u.X.(*ssa.FreeVar); ok2 {
+			if pk := "param:" + funcKey(fr.fn) + "." + fv.Name(); eng.cs.Funcs[pk] != nil {
+				key = pk
+			}
+		}
+	}
 	var resT types.Type = cc.Signature().Results()
 	mkres := func() *Val {
 		rt := cc.Signature().Results()
@@ -306,6 +327,11 @@ func (vf *VerifyFunc) doCall(st *State, fr *Frame, in ssa.Instruction, cc *ssa.C
 	_ = resT
 	label := eng.info(fr.fn).callOrd[in]
 	top := len(st.frames) == 1
+	if top && vf.fc != nil && vf.fc.Flags["interleaved"] {
+		// other goroutines run between any two steps of this function: what the rely clause names may change before
+		// every call (calls are the only points at which this function observes or changes shared state)
+		vf.yield(st)
+	}
 
 	// call-site assertions (before)
 	if top && vf.fc != nil {
@@ -462,6 +488,45 @@ func (vf *VerifyFunc) callEnv(st *State, fr *Frame, cc *ssa.CallCommon, args []*
 }
 
 func (vf *VerifyFunc) applyContract(st *State, fr *Frame, in ssa.Instruction, fc *FuncContract, cc *ssa.CallCommon, args []*Val, fnv *Val, label callLabel) *Val {
+	return vf.applyContractSig(st, fr, in, fc, cc.Signature(), args, fnv, label, false)
+}
+
+// applyContractSig applies a contract at a call (or, with invoked set, at the one call a callee makes to a function
+// value it was given: preconditions that mention the invoked function's own parameters are the callee's business and
+// are assumed, the others are obligations of the call site).
+func (vf *VerifyFunc) applyContractSig(st *State, fr *Frame, in ssa.Instruction, fc *FuncContract, sig *types.Signature, args []*Val, fnv *Val, label callLabel, invoked bool) *Val {
+	if fc.SameAs != "" {
+		if t := vf.eng.cs.Funcs[fc.SameAs]; t != nil {
+			// the function value is (by the paramfunc declaration) the function t: use t's contract; preconditions of t
+			// that mention t's own free variables are facts of the place where the closure was created, not of this call
+			vf.eng.mu.Lock()
+			vf.eng.usedContracts[fc.Key] = true
+			vf.eng.mu.Unlock()
+			cp := *t
+			cp.Requires = nil
+			names := map[string]bool{}
+			for _, n := range t.Params {
+				names[n] = true
+			}
+			for _, c := range t.Requires {
+				ids := map[string]bool{}
+				freeIdents(c.E, map[string]bool{}, ids)
+				ok := true
+				if fn := vf.eng.funcsByKey[t.Key]; fn != nil {
+					for _, fv := range fn.FreeVars {
+						if ids[fv.Name()] {
+							ok = false
+						}
+					}
+				}
+				if ok {
+					cp.Requires = append(cp.Requires, c)
+				}
+			}
+			cp.SameAs = ""
+			return vf.applyContractSig(st, fr, in, &cp, sig, args, fnv, label, invoked)
+		}
+	}
 	vf.eng.mu.Lock()
 	vf.eng.usedContracts[fc.Key] = true
 	vf.eng.mu.Unlock()
@@ -494,7 +559,51 @@ func (vf *VerifyFunc) applyContract(st *State, fr *Frame, in ssa.Instruction, fc
 	vf.addPkgEnv(env, fc.PkgPath)
 	for i, c := range fc.Requires {
 		t := vf.evalClauseIn(st, c, env, nil, fc.PkgPath)
+		if invoked {
+			ids := map[string]bool{}
+			freeIdents(c.E, map[string]bool{}, ids)
+			own := false
+			for _, n := range fc.Params {
+				if ids[n] {
+					own = true
+				}
+			}
+			if own {
+				st.assume(t)
+				continue
+			}
+		}
 		st.check("pre", fmt.Sprintf("%s#%d/%s", label.name, label.ord, lbl(c, fmt.Sprint(i))), c.Prop, c.Src, st.pos(in), t)
+	}
+	// a function-typed argument the callee invokes exactly once: its own contract describes that invocation
+	if fc.Invokes != "" {
+		var fa *Val
+		for i, n := range fc.Params {
+			if n == fc.Invokes && i < len(all) {
+				fa = all[i]
+			}
+		}
+		done := false
+		if fa != nil && fa.Fn != nil {
+			if sf, ok := fa.Fn.Static.(*ssa.Function); ok {
+				if cfc := vf.eng.cs.Funcs[funcKey(sf)]; cfc != nil {
+					var cargs []*Val
+					for _, p := range sf.Params {
+						v := st.freshVal(p.Type(), "inv_"+p.Name())
+						st.knowRef(v)
+						cargs = append(cargs, v)
+					}
+					r := vf.applyContractSig(st, fr, in, cfc, sf.Signature, cargs, fa, callLabel{name: label.name + ".invokes", ord: label.ord}, true)
+					if r != nil {
+						env["fnresult"] = r
+					}
+					done = true
+				}
+			}
+		}
+		if !done {
+			st.havocAll("call to " + shortFuncName(fc.Key) + " invokes a function value without a contract")
+		}
 	}
 	old := st.snapshot()
 	// frame
@@ -508,7 +617,7 @@ func (vf *VerifyFunc) applyContract(st *State, fr *Frame, in ssa.Instruction, fc
 		}
 	}
 	// results
-	rt := cc.Signature().Results()
+	rt := sig.Results()
 	var res *Val
 	switch rt.Len() {
 	case 0:
@@ -571,6 +680,11 @@ func (e *Engine) mentionsCalleeLocal(fc *FuncContract, c *Clause) bool {
 			for _, p := range fn.Params {
 				if p.Name() == id {
 					isParam = true
+				}
+			}
+			for _, fv := range fn.FreeVars {
+				if fv.Name() == id {
+					isParam = true // captured variables are bound at the call through the closure value
 				}
 			}
 			if !isParam && e.localType(fn, id) != nil {
